@@ -111,6 +111,12 @@ QuantileCoherent == IsU =>
     \* least value whose CDF reaches p: no smaller data value does
     /\ \A p \in PS : \A v \in Rng(X) : v < QuantileEmp(p, X, V) => RLt(CDF(RInt(v), X, V), p)
 
+\* used by DescriptiveTrace.tla to keep numbers small on samples of 200 entries
+VarianceIdentity == IsU =>
+    LET S == WXSum(X, V) Q == Sum([i \in 1 .. N |-> V[i] * X[i] * X[i]]) IN
+    /\ CentralN(X, V, 2) = TW * (TW * Q - S * S)
+    /\ PopVariance(X, V) = R(TW * Q - S * S, TW * TW)
+
 HistogramConserves == IsU => \A d \in Divs : HistDomain(d, X) =>
     /\ Sum(Histogram(d, X, V)) = TW
     /\ \A j \in 1 .. Len(d) - 1 : Histogram(d, X, V)[j] >= 0
